@@ -110,6 +110,90 @@ pub fn spawn_omniscient(
     }
 }
 
+
+/// Leading bits two ids share.
+pub fn lcp_bits(a: &Id, b: &Id) -> usize {
+    for i in 0..20 {
+        let x = a[i] ^ b[i];
+        if x != 0 {
+            return i * 8 + x.leading_zeros() as usize;
+        }
+    }
+    160
+}
+
+/// Kademlia-like knowledge: node i knows, for every prefix length p, the (at most) 8 nodes that
+/// share exactly p leading bits with it and are XOR-nearest to it.
+pub fn kademlia_knowledge(world: &[(Id, SocketAddr)]) -> Vec<Vec<usize>> {
+    let n = world.len();
+    let mut out = Vec::with_capacity(n);
+    for i in 0..n {
+        let mut by_p: HashMap<usize, Vec<usize>> = HashMap::new();
+        for j in 0..n {
+            if j != i {
+                by_p.entry(lcp_bits(&world[i].0, &world[j].0)).or_default().push(j);
+            }
+        }
+        let mut known = vec![];
+        let mut ps: Vec<usize> = by_p.keys().copied().collect();
+        ps.sort();
+        for p in ps {
+            let mut v = by_p.remove(&p).unwrap();
+            v.sort_by_key(|j| xor_dist(&world[i].0, &world[*j].0));
+            v.truncate(8);
+            known.extend(v);
+        }
+        out.push(known);
+    }
+    out
+}
+
+/// Like `spawn_omniscient`, but every node answers with the <= 8 nodes closest to the target
+/// among those it *knows* (`knowledge[i]`), so that a search needs several hops.
+pub fn spawn_limited(
+    net: &SimNet,
+    world: Arc<Vec<(Id, SocketAddr)>>,
+    knowledge: Arc<Vec<Vec<usize>>>,
+    peers: Arc<Vec<Vec<SocketAddr>>>,
+    rec: Arc<Mutex<WorldRecord>>,
+) {
+    for i in 0..world.len() {
+        let world = world.clone();
+        let knowledge = knowledge.clone();
+        let peers = peers.clone();
+        let rec = rec.clone();
+        let (id, addr) = world[i];
+        spawn_puppet(net, addr, move |_raw, msg, from, now| {
+            let Some(m) = msg else { return vec![] };
+            let KBody::Query(q) = &m.body else { return vec![] };
+            let names = |target: &[u8]| -> Vec<(Id, SocketAddr)> {
+                let mut idx: Vec<usize> = knowledge[i].clone();
+                idx.sort_by_key(|j| xor_dist(&world[*j].0, target));
+                idx.truncate(8);
+                idx.into_iter().map(|j| world[j]).collect()
+            };
+            let r = match q {
+                KQuery::Ping { .. } | KQuery::Announce { .. } => KResp { id: id.to_vec(), ..Default::default() },
+                KQuery::FindNode { target, .. } => {
+                    let (nodes, nodes6) = node_lists(&names(target));
+                    KResp { id: id.to_vec(), nodes, nodes6, ..Default::default() }
+                }
+                KQuery::GetPeers { info_hash, .. } => {
+                    let (nodes, nodes6) = node_lists(&names(info_hash));
+                    let mut r = rec.lock().unwrap();
+                    r.counter += 1;
+                    let mut token = b"tk".to_vec();
+                    token.extend_from_slice(&(i as u16).to_be_bytes());
+                    token.extend_from_slice(&r.counter.to_be_bytes());
+                    r.tokens.entry(i).or_default().push((token.clone(), from, now.as_millis() as u64));
+                    KResp { id: id.to_vec(), nodes, nodes6, token: Some(token), values: peers[i].clone() }
+                }
+            };
+            vec![Out::now(from, &resp(&m.tid, r))]
+        });
+    }
+}
+
 /// What one search looked like on the wire (all datagrams of one 5-byte activity prefix).
 #[derive(Default, Debug, Clone)]
 pub struct SearchObs {
